@@ -51,7 +51,11 @@ use crate::parser::inline::{InlineRule, InlineState, Text};
 
 #[derive(Debug, Default)]
 struct CodePairCache<const MARKER: char> {
+    // a scan starting at `scanned_from` reached `scanned_to` without finding a closer;
+    // `max` is complete only for openers (and ranges) within these limits
     scanned: bool,
+    scanned_from: usize,
+    scanned_to: usize,
     max: Vec<usize>,
 }
 
@@ -86,7 +90,8 @@ impl<const MARKER: char, const TOKENIZE: bool> InlineRule for CodePairScanner<MA
         let mut backticks = state.inline_env.get::<RefCell<CodePairCache<MARKER>>>().unwrap().borrow_mut();
         let opener_len = pos - state.pos;
 
-        if backticks.scanned && backticks.max.get(opener_len).copied().unwrap_or(0) <= state.pos {
+        if backticks.scanned && state.pos >= backticks.scanned_from && state.pos_max <= backticks.scanned_to &&
+           backticks.max.get(opener_len).copied().unwrap_or(0) <= state.pos {
             // performance note: adding entire sequence into pending is 5x faster,
             // but it will interfere with other rules working on the same char;
             // and it is extremely rare that user would put a thousand "`" in text
@@ -148,11 +153,15 @@ impl<const MARKER: char, const TOKENIZE: bool> InlineRule for CodePairScanner<MA
 
             // Some different length found, put it in cache as upper limit of where closer can be found
             while backticks.max.len() <= closer_len { backticks.max.push(0); }
-            backticks.max[closer_len] = match_start;
+            if backticks.max[closer_len] < match_start { backticks.max[closer_len] = match_start; }
         }
 
         // Scanned through the end, didn't find anything
-        backticks.scanned = true;
+        if !backticks.scanned || (state.pos <= backticks.scanned_from && state.pos_max >= backticks.scanned_to) {
+            backticks.scanned = true;
+            backticks.scanned_from = state.pos;
+            backticks.scanned_to = state.pos_max;
+        }
 
         None
     }
